@@ -13,7 +13,15 @@ P2  every distinct state of the driver's graph is rebuilt on a real
     the alphabet is applied to it; the observed {pre, op, res, post} records
 P3  are validated by TLC against VarRef (Trace_VarSet), as are long random
     histories beyond the exhaustive bounds.
-Phase 2 (through the language) is in c16_lang (see run()).
+Phase 2 (through the language): TLC enumerates (and, with -simulate, samples)
+    scripts of spec/VarLang.tla -- simple commands with assignment prefixes to
+    special / regular built-ins, functions and external utilities,
+    typeset/export/readonly/unset, function calls with positional parameters,
+    `set --` -- and prints for each the predicted reports of the `snap` probe
+    after every command, the predicted environment of every executed program
+    and the predicted final state (EXIT trap).  The script is rendered to shell
+    text, run in the real shell on the simulated OS (yvcommon::shell) and the
+    observations are compared with the predictions.
 """
 import json
 import os
@@ -40,6 +48,34 @@ CONFIGS = {
         ("MC_VarSet_t2.cfg", "x,y", "a,b", "none", "Trace_VarSet_2.cfg"),
     ],
 }
+
+
+# Development aid for the mutant self-test only (tools/mutcheck with
+# C16_DEV_CACHE=1): the TLC runs do not depend on /repo, so their outputs are
+# kept in /tmp/c16-cache between runs.  Never set in a registered run.
+DEV_CACHE = os.environ.get("C16_DEV_CACHE") == "1"
+
+
+def _cached_tlc(module, cfg, out, kw, **more):
+    import pickle
+    import shutil
+    kw = dict(kw, **more)
+    if not DEV_CACHE:
+        return vlib.tlc(module, cfg, json_out=out, **kw)
+    cdir = "/tmp/c16-cache"
+    os.makedirs(cdir, exist_ok=True)
+    tag = f"{module}-{cfg}-{kw.get('simulate')}-{kw.get('tool_seed')}"
+    data, meta = os.path.join(cdir, tag + ".ndjson"), os.path.join(cdir, tag + ".pickle")
+    if os.path.exists(meta):
+        shutil.copy(data, out)
+        with open(meta, "rb") as f:
+            return pickle.load(f)
+    r = vlib.tlc(module, cfg, json_out=out, **kw)
+    if r.ok:
+        shutil.copy(out, data)
+        with open(meta, "wb") as f:
+            pickle.dump(r, f)
+    return r
 
 
 def validate(trace, cfg, shards=8, timeout=1500):
@@ -162,8 +198,8 @@ def run(tier):
     notes = []
 
     # ---- P1 on the reference model: the property's invariants -------------
-    ref_cfgs = ["MC_VarRef.cfg", "MC_VarRef_pos.cfg"] + (["MC_VarRef_big.cfg"] if tier == "thorough" else [])
-    for cfg in ref_cfgs:
+    ref_cfgs = ["MC_VarRef.cfg", "MC_VarRef_pos.cfg"] + (["MC_VarRef_full.cfg", "MC_VarRef_big.cfg"] if tier == "thorough" else [])
+    for cfg in ([] if DEV_CACHE else ref_cfgs):
         r = vlib.tlc("MC_VarRef", cfg, workers=8, timeout=2400)
         vlib.tlc_must_pass(r, f"invariants of the reference model ({cfg})")
         vlib.log(f"[p1] {cfg}: VarRef invariants hold on {r.distinct} states / {r.generated} transitions, "
@@ -175,8 +211,8 @@ def run(tier):
     replayed_states = replayed_steps = 0
     for cfg, names, vals, pos, tcfg in CONFIGS[tier]:
         gen = os.path.join(wd, cfg + ".states.ndjson")
-        r = vlib.tlc("VarSet", cfg, workers=8, json_out=gen, coverage=(cfg == "MC_VarSet_q1.cfg"),
-                     timeout=3000, want_lines=True)
+        r = _cached_tlc("VarSet", cfg, gen, dict(workers=8, coverage=(cfg == "MC_VarSet_q1.cfg"),
+                                                 timeout=3000, want_lines=True))
         vlib.tlc_must_pass(r, f"VarSet refines VarRef ({cfg})")
         vlib.log(f"[p1] {cfg}: refinement + representation invariant hold; {r.distinct} distinct states, "
                  f"{r.generated} transitions, depth {r.depth}, {r.wall:.1f}s")
@@ -215,8 +251,10 @@ def run(tier):
                  f"in {tv:.1f}s ({nrej} rejected)")
 
     # ---- the model of `unset` as the code is written (informational) ------
-    r = vlib.tlc("VarSet", "MC_VarSet_ascoded.cfg", workers=4, timeout=600)
-    if r.violation and "RefinesVarRef" in r.violation:
+    r = vlib.tlc("VarSet", "MC_VarSet_ascoded.cfg", workers=4, timeout=600) if not DEV_CACHE else None
+    if r is None:
+        pass
+    elif r.violation and "RefinesVarRef" in r.violation:
         notes.append("MC_VarSet_ascoded: with unset modelled as variable.rs writes it (stack[index..]) the model "
                      "does NOT refine VarRef (TLC counterexample) -- design-level view of finding F5")
         vlib.log("[f5] unset modelled as coded: TLC finds the refinement counterexample (expected while F5 is open)")
@@ -244,21 +282,13 @@ def run(tier):
     os.remove(trace)
 
     # ---- phase 2: through the language -------------------------------------
-    lang = {}
-    try:
-        from checks import c16_lang
-    except ImportError:
-        c16_lang = None
-    if c16_lang is not None:
-        lang = c16_lang.run(tier, rep, wd) or {}
-    else:
-        notes.append("phase 2 (scripts through the shell) not available")
+    lang = lang_run(tier, rep, wd)
 
     rc = rep.finish()
     unexercised = [a for a, c in actions.items() if c == 0]
     cov = {
-        "states": states,
-        "transitions": transitions,
+        "states": states + lang.get("lang_states", 0),
+        "transitions": transitions + lang.get("lang_transitions", 0),
         "traces_validated_against_impl": replayed_steps + random_steps + lang.get("validated", 0),
         "samples": samples + lang.get("samples", []),
         "evaluations": replayed_steps + random_steps + lang.get("validated", 0),
@@ -292,8 +322,7 @@ def replay(path):
         obj = json.load(f)
     rp = obj["replay"]
     if rp.get("lang"):
-        from checks import c16_lang
-        return c16_lang.replay(path, obj)
+        return lang_replay(path, obj)
     wd = vlib.workdir(PID + "-replay")
     src = os.path.join(wd, "in.ndjson")
     t = os.path.join(wd, "one.ndjson")
@@ -308,6 +337,184 @@ def replay(path):
     rejects, _ = validate(t, f"Trace_VarSet_{len(rp['names'])}.cfg", shards=1)
     if rejects:
         print(f"rejected: {rejects[0][1]}")
+        print(f"VIOLATION property={PID} replay={path}")
+        return 1
+    print("accepted")
+    return 0
+
+
+# ---------------------------------------------------------------------------
+# phase 2: scripts of spec/VarLang.tla through the shell
+# ---------------------------------------------------------------------------
+def lang_render(events):
+    """Shell text of a VarLang script (list of events)."""
+    funcs = []          # (name, body-lines)
+    stack = [[]]        # lines of the enclosing bodies
+    names = []
+    nfun = 0
+    for e in events:
+        c = e["c"]
+        cur = stack[-1]
+        if c in ("assign",):
+            cur.append(f"{e['n']}={e['v']}")
+        elif c == "sassign":
+            cur.append(f"{e['n']}={e['v']} :")
+        elif c == "pbuiltin":
+            cur.append(f"{e['n']}={e['v']} snap {e['tag']}")
+        elif c == "ext":
+            pre = f"{e['n']}={e['v']} " if e["n"] else ""
+            cur.append(f"{pre}/bin/true")
+        elif c == "call":
+            nfun += 1
+            name = f"f{nfun}"
+            pre = f"{e['n']}={e['v']} " if e["n"] else ""
+            cur.append(pre + " ".join([name] + list(e["args"])))
+            names.append(name)
+            stack.append([])
+        elif c == "ret":
+            body = stack.pop()
+            funcs.append((names.pop(), body))
+        elif c in ("typeset", "export", "readonly"):
+            cur.append(f"{c} {e['n']}" + (f"={e['v']}" if e["hasv"] else ""))
+        elif c == "unset":
+            cur.append(f"unset {e['n']}")
+        elif c == "setpos":
+            cur.append(" ".join(["set", "--"] + list(e["args"])))
+        elif c == "snap":
+            cur.append(f"snap {e['tag']}")
+        else:
+            raise vlib.ToolError(f"unknown script event {e}")
+    # a failing command ends the script inside its function bodies; a call whose
+    # prefix assignment fails never enters the body
+    while len(stack) > 1:
+        body = stack.pop()
+        funcs.append((names.pop(), body))
+    lines = ["trap 'snap end' EXIT"]
+    for name, body in funcs:
+        lines.append(f"{name}() {{ " + "; ".join(body or [":"]) + "; }")
+    lines += stack[0]
+    return "\n".join(lines) + "\n"
+
+
+def lang_compare(pred, obs):
+    """Returns None if the observation matches the prediction, else (why, detail)."""
+    if obs["outcome"] != "completed":
+        return "outcome", obs["outcome"]
+    want = [{"tag": str(i + 1), "pos": s["pos"], "vars": s["vars"]} for i, s in enumerate(pred["snaps"])]
+    want.append({"tag": "end", "pos": pred["end"]["pos"], "vars": pred["end"]["vars"]})
+    got = obs["snaps"]
+    for i, w in enumerate(want):
+        if i >= len(got):
+            return "missing-snap", f"snap {w['tag']} was not reported"
+        g = got[i]
+        if g["tag"] != w["tag"]:
+            return "snap-order", f"expected snap {w['tag']}, got snap {g['tag']}"
+        if g["vars"] != w["vars"]:
+            return "vars", f"snap {w['tag']}: expected {w['vars']}, observed {g['vars']}"
+        if g["pos"] != w["pos"]:
+            return "pos", f"snap {w['tag']}: expected positional parameters {w['pos']}, observed {g['pos']}"
+    if len(got) > len(want):
+        return "extra-snap", f"unexpected snap {got[len(want)]['tag']}"
+    envs = [e["env"] for e in obs["execs"]]
+    if envs != pred["envs"]:
+        return "env", f"expected environments {pred['envs']}, observed {envs}"
+    return None
+
+
+def _failing_command(pred):
+    cmds = [e for e in pred["script"] if e["c"] not in ("snap", "ret")]
+    return cmds[-1]["c"] if pred["dead"] and cmds else ""
+
+
+def lang_run_batch(rep, wd, gen, names, what, stats):
+    scripts = os.path.join(wd, "lang.scripts.ndjson")
+    results = os.path.join(wd, "lang.results.ndjson")
+    preds = []
+    with open(scripts, "w") as f:
+        for i, p in enumerate(vlib.read_ndjson(gen)):
+            preds.append(p)
+            f.write(json.dumps({"id": i, "names": names, "text": lang_render(p["script"])}) + "\n")
+    vlib.run_harness(PKG, ["lang", "--in", scripts, "--out", results])
+    n = 0
+    for obs in vlib.read_ndjson(results):
+        p = preds[obs["id"]]
+        n += 1
+        stats["snaps"] += len(p["snaps"]) + 1
+        stats["execs"] += len(p["envs"])
+        stats["dead"] += 1 if p["dead"] else 0
+        for e in p["script"]:
+            if e["c"] not in ("snap", "ret"):
+                stats["commands"][e["c"]] = stats["commands"].get(e["c"], 0) + 1
+        bad = lang_compare(p, obs)
+        if bad:
+            text = lang_render(p["script"])
+            key = {"lang": True, "why": bad[0], "script": text, "failing": _failing_command(p)}
+            rep.violation(key, f"{what}: {bad[1]}", {"lang": True, "names": names, "script": p["script"],
+                                                      "text": text, "predicted": {k: p[k] for k in ("snaps", "envs", "end", "dead")},
+                                                      "observed": obs})
+        elif len(stats["samples"]) < 2 and n % 97 == 5:
+            stats["samples"].append({"script": lang_render(p["script"]), "predicted_snaps": p["snaps"],
+                                     "predicted_envs": p["envs"], "end": p["end"]})
+    if n != len(preds):
+        raise vlib.ToolError(f"{what}: {len(preds)} scripts generated, {n} results")
+    os.remove(scripts)
+    os.remove(results)
+    return n
+
+
+def lang_run(tier, rep, wd):
+    stats = {"snaps": 0, "execs": 0, "dead": 0, "commands": {}, "samples": []}
+    total = states = transitions = 0
+    # exhaustive: every script of the bounded alphabet
+    exh = [("MC_VarLang_q.cfg", ["x"])] if tier == "quick" else [("MC_VarLang_q.cfg", ["x"]), ("MC_VarLang_t.cfg", ["x", "y"])]
+    for cfg, names in exh:
+        gen = os.path.join(wd, cfg + ".scripts.ndjson")
+        r = _cached_tlc("VarLang", cfg, gen, dict(workers=8, timeout=2400))
+        vlib.tlc_must_pass(r, f"script generation {cfg}")
+        states += r.distinct
+        transitions += r.generated
+        n = lang_run_batch(rep, wd, gen, names, f"script of {cfg}", stats)
+        os.remove(gen)
+        total += n
+        vlib.log(f"[lang] {cfg}: all {n} complete scripts of the bounded alphabet run in the shell and compared "
+                 f"with the predicted snapshots ({r.wall:.1f}s TLC)")
+    # sampled: longer scripts, two names, nested calls (TLC -simulate, seeded)
+    walks = 100 if tier == "quick" else 2500
+    for cfg in ("MC_VarLang_sim.cfg", "MC_VarLang_sim2.cfg"):
+        gen = os.path.join(wd, "sim.scripts.ndjson")
+        r = _cached_tlc("VarLang", cfg, gen, dict(workers=4, simulate=walks, depth=60,
+                                                  tool_seed=vlib.seed(), timeout=1200))
+        vlib.tlc_must_pass(r, f"script sampling {cfg}")
+        n = lang_run_batch(rep, wd, gen, ["x", "y"], f"sampled script of {cfg}", stats)
+        os.remove(gen)
+        total += n
+        vlib.log(f"[lang] {cfg}: {n} sampled scripts (10 commands, 2 names, nested calls) run and compared")
+    return {
+        "validated": total,
+        "samples": stats["samples"],
+        "lang_scripts": total,
+        "lang_snapshots_compared": stats["snaps"],
+        "lang_exec_environments_compared": stats["execs"],
+        "lang_scripts_ending_in_readonly_error": stats["dead"],
+        "lang_commands_by_kind": stats["commands"],
+        "lang_states": states,
+        "lang_transitions": transitions,
+    }
+
+
+def lang_replay(path, obj):
+    rp = obj["replay"]
+    wd = vlib.workdir(PID + "-replay")
+    scripts = os.path.join(wd, "s.ndjson")
+    results = os.path.join(wd, "r.ndjson")
+    with open(scripts, "w") as f:
+        f.write(json.dumps({"id": 0, "names": rp["names"], "text": lang_render(rp["script"])}) + "\n")
+    vlib.run_harness(PKG, ["lang", "--in", scripts, "--out", results])
+    obs = next(vlib.read_ndjson(results))
+    pred = dict(rp["predicted"], script=rp["script"])
+    bad = lang_compare(pred, obs)
+    if bad:
+        print(f"rejected: {bad}")
         print(f"VIOLATION property={PID} replay={path}")
         return 1
     print("accepted")
